@@ -842,3 +842,8 @@ fn c01_separator_name() {
     kani::cover!(n == b'A');
     std::mem::forget(obj);
 }
+#[kani::proof]
+#[kani::unwind(19)]
+fn c01_name_4() {
+    name_harness::<4, 13>();
+}
